@@ -39,7 +39,7 @@ pub fn strategy_of(name: &str) -> BoxedStrategy<History> {
         "C12" => c12::history_strategy().boxed(),
         "C20" => c20::history_strategy().boxed(),
         // histories decoded from random bytes by the libFuzzer decoder (verbatim MAC bytes, raw CFLists)
-        _ => proptest::collection::vec(any::<u8>(), 8..220).prop_map(|b| c04::decode_history(&b)).boxed(),
+        _ => proptest::collection::vec(any::<u8>(), 8..220).prop_map(|b| c04::decode_history_v2(&b)).boxed(),
     }
 }
 
@@ -96,6 +96,27 @@ pub fn stage(ctx: &mut Ctx, own: &'static str, cases_per_gen: u32) {
             }
         }
     });
+}
+
+/// Entry point of the libFuzzer target `fuzz_hist`: the input is decoded into a history (decoder v2)
+/// and judged by the property named in VERIF_FUZZ_JUDGE (every history judge when it is ALL).
+pub fn fuzz_hist(data: &[u8], own: &str) -> Result<(), Failure> {
+    let h = c04::decode_history_v2(data);
+    if own == "ALL" {
+        for j in ["C04", "C05", "C06", "C07", "C08", "C09", "C10", "C11", "C12"] {
+            judge_as(j, &h)?;
+        }
+        return Ok(());
+    }
+    judge_as(own, &h).map(|_| ())
+}
+
+/// A replay case is a history document, or the raw input of the libFuzzer stage.
+pub fn case_history(case: &Value) -> History {
+    if case["kind"] == "fuzz_raw" {
+        return c04::decode_history_v2(&unhex(case["data"].as_str().unwrap_or("")));
+    }
+    History::from_json(case)
 }
 
 pub const QUICK_PER_GEN: u32 = 3_000;
